@@ -103,8 +103,17 @@ func VH13a_listener() {
 	lives := map[mangos.Pipe]*pipeLife{} // by pipe object, not by id: an id may be reused once its pipe is gone
 	var order []*pipeLife
 	fate := make([]int, C) // 6 peer already gone when accepted; 0 live, 1 hook closes in Attaching, 2 hook closes in Attached, 3 proto refuses, 4 peer drops later, 5 app closes later
-	for i := range fate {
-		fate[i] = verif.Choice("fate", 7)
+	if verif.Param("deep", 0) == 1 {
+		// deep runs: many connections whose fates follow one of a few periodic patterns
+		patterns := [][]int{{4}, {0}, {1}, {2}, {3}, {5}, {6}, {4, 0}, {3, 4}, {1, 4, 0}, {4, 4, 5}, {6, 2, 4}, {0, 0, 4, 3}}
+		pat := patterns[verif.Choice("pattern", len(patterns))]
+		for i := range fate {
+			fate[i] = pat[i%len(pat)]
+		}
+	} else {
+		for i := range fate {
+			fate[i] = verif.Choice("fate", 7)
+		}
 	}
 	cur := 0
 	rp.refuse = func(n int) bool { return false }
